@@ -10,14 +10,14 @@ export GOFLAGS=-mod=mod GOPROXY=off GOSUMDB=off GOTOOLCHAIN=local
 # later fix: commits may touch the same lines)
 BASE="${MUTANT_BASE:-}"
 [ -z "$BASE" ] && [ -f "$SRC/base" ] && BASE=$(git -C /repo rev-parse "$(cat "$SRC/base")")
-[ -z "$BASE" ] && for C in $(git -C /repo log --format=%H -30); do
+[ -z "$BASE" ] && for C in $(git -C /repo log --format=%H -80); do
   T=$(mktemp -d /tmp/basechk-XXXXXX); rmdir "$T"
   git -C /repo worktree add -q --detach "$T" "$C" 2>/dev/null || continue
   if git -C "$T" apply --check "$SRC/patch.diff" 2>/dev/null; then BASE="$C"; fi
   git -C /repo worktree remove --force "$T"
   [ -n "$BASE" ] && break
 done
-[ -z "$BASE" ] && { echo "patch applies to none of the last 30 commits"; exit 2; }
+[ -z "$BASE" ] && { echo "patch applies to none of the last 80 commits"; exit 2; }
 [ "$BASE" != "$(git -C /repo rev-parse HEAD)" ] && echo "note: patch no longer applies to HEAD; using base $(git -C /repo log --format=%h -1 $BASE) (newest commit it applies to)"
 WT=$(mktemp -d /tmp/confirm-XXXXXX); rmdir "$WT"
 git -C /repo worktree add -q --detach "$WT" "$BASE" || exit 2
